@@ -403,17 +403,31 @@ func (fc *funcContext) translateStmt(stmt ast.Stmt, label *types.Label) {
 				}
 			}
 		case len(s.Lhs) == len(s.Rhs):
+			// The assignment proceeds in two phases. First, the operands of index
+			// expressions and pointer indirections on the left and the expressions
+			// on the right are evaluated. Second, the assignments are carried out.
+			assigned := map[types.Object]bool{}
+			for _, lhs := range s.Lhs {
+				if id, ok := astutil.RemoveParens(lhs).(*ast.Ident); ok {
+					if obj := fc.pkgCtx.ObjectOf(id); obj != nil {
+						assigned[obj] = true
+					}
+				}
+			}
+			lhss := make([]ast.Expr, len(s.Lhs))
+			for i, lhs := range s.Lhs {
+				lhss[i] = fc.fixLhsOperands(astutil.RemoveParens(lhs), assigned)
+			}
 			tmpVars := make([]string, len(s.Rhs))
 			for i, rhs := range s.Rhs {
 				tmpVars[i] = fc.newLocalVariable("_tmp")
-				if isBlank(astutil.RemoveParens(s.Lhs[i])) {
+				if isBlank(lhss[i]) {
 					fc.Printf("$unused(%s);", fc.translateExpr(rhs))
 					continue
 				}
 				fc.Printf("%s", fc.translateAssign(fc.newIdent(tmpVars[i], fc.typeOf(s.Lhs[i])), rhs, true))
 			}
-			for i, lhs := range s.Lhs {
-				lhs = astutil.RemoveParens(lhs)
+			for i, lhs := range lhss {
 				if !isBlank(lhs) {
 					fc.Printf("%s", fc.translateAssign(lhs, fc.newIdent(tmpVars[i], fc.typeOf(lhs)), s.Tok == token.DEFINE))
 				}
@@ -826,6 +840,43 @@ func (fc *funcContext) translateResults(results []ast.Expr) string {
 		fc.delayedOutput = nil
 		return " [" + strings.Join(values, ", ") + "]"
 	}
+}
+
+// fixLhsOperands returns the left-hand side of one assignment of a parallel
+// assignment with those operands of an index expression or pointer indirection
+// stored in temporaries whose value an earlier assignment of the same
+// statement can change: identifiers assigned by the statement and everything
+// that is neither an identifier nor a constant.
+func (fc *funcContext) fixLhsOperands(lhs ast.Expr, assigned map[types.Object]bool) ast.Expr {
+	fix := func(e ast.Expr, name string) ast.Expr {
+		if fc.pkgCtx.Types[e].Value != nil {
+			return e
+		}
+		if id, ok := astutil.RemoveParens(e).(*ast.Ident); ok && !assigned[fc.pkgCtx.ObjectOf(id)] {
+			return e
+		}
+		v := fc.newLocalVariable(name)
+		fc.Printf("%s = %s;", v, fc.translateExpr(e))
+		return fc.newIdent(v, fc.typeOf(e))
+	}
+	switch l := lhs.(type) {
+	case *ast.IndexExpr:
+		return fc.setType(&ast.IndexExpr{X: fix(l.X, "_slice"), Index: fix(l.Index, "_index")}, fc.typeOf(l))
+	case *ast.StarExpr:
+		return fc.setType(&ast.StarExpr{X: fix(l.X, "_ptr")}, fc.typeOf(l))
+	case *ast.SelectorExpr:
+		sel, ok := fc.selectionOf(l)
+		if !ok {
+			return l // qualified identifier
+		}
+		if _, isPtr := fc.typeOf(l.X).Underlying().(*types.Pointer); !isPtr {
+			return l // no pointer indirection
+		}
+		newSel := &ast.SelectorExpr{X: fix(l.X, "_struct"), Sel: l.Sel}
+		fc.pkgCtx.additionalSelections[newSel] = sel
+		return fc.setType(newSel, fc.typeOf(l))
+	}
+	return lhs
 }
 
 func (fc *funcContext) labelCase(label *types.Label) int {
